@@ -157,6 +157,12 @@ func c17CheckDomain(c *Conf, path string, lines [][]byte, subdomains []string) {
 	for _, kv := range kvs {
 		got := c.GetStringWithDef(path+"<"+string(kv.k)+">", "\x00missing")
 		vapi.Check(got == string(kv.v), "every key is retrievable with exactly its value")
+		// a key is not a domain: a path that continues below it names nothing
+		if len(kv.k) > 0 {
+			below := c.GetStringWithDef(path+"/"+string(kv.k)+"<"+string(kv.k)+">", "\x00missing")
+			vapi.Check(below == "\x00missing", "a path that continues below a key yields the supplied default")
+			vapi.Check(c.GetIntWithDef(path+"/"+string(kv.k)+"/zz<zz>", -77) == -77, "a path that continues below a key yields the supplied default")
+		}
 	}
 	keys := c.GetDomainKey(path)
 	vapi.Check(len(keys) == len(kvs), "key listing contains exactly the written keys")
